@@ -181,7 +181,14 @@ func (p *processor) processEvent(event *Event) (isPassed bool, e *Event) {
 		// there is busy action, waiting for next sequential event.
 		event = stream.blockGet()
 		if event.IsTimeoutKind() {
-			// pass timeout directly to plugin which requested next sequential event.
+			// pass timeout directly to plugin which requested next sequential event:
+			// the busy one, lastAction may be an action that has just dropped an event.
+			for i, busy := range p.busyActions {
+				if busy {
+					lastAction = i
+					break
+				}
+			}
 			event.action = lastAction
 		}
 	}
